@@ -1,6 +1,7 @@
 import FordModel.Proto
 import FordModel.Use
 import FordModel.UseBind
+import FordModel.UseExt
 namespace Ford
 open Proto Use
 
@@ -120,6 +121,19 @@ def dispatchC06 : List Str → Option (List Str)
         some ("ok".toList :: ([0, 1, 2, 3].flatMap (fun k =>
           let ns := nestedOfK all nspec k
           showStateL (g ++ ns.map (·.scope)) k (runN k (bindG g es) (bindNsU g es (words unreached) ns) o))))
+      | _ => some ["bad-request".toList]
+    else if cmd == "c06.runx".toList || cmd == "c06.runxfixed".toList then
+      -- c06.runx <order of A> <order of B> <extra_mods names> <number of scopes of A> <scope fields of A, then of B> :
+      -- project A correlated and externalized, project B correlated against the modules it loads (`twoStep`)
+      match args with
+      | orderA :: orderB :: exts :: na :: fs =>
+        let all := parseScopes (cmd == "c06.runxfixed".toList) (fs.length + 1) fs
+        let gA := all.take (natOf na)
+        let gB := all.drop (natOf na)
+        let es : List ExtMod := (words exts).map (fun n => { name := n })
+        some ("ok".toList :: ([0, 1, 2, 3].flatMap (fun k =>
+          showStateL gA k (run k (bindG gA es) (words orderA)) ++
+          showStateL gB k (twoStep k gA (words orderA) gB es (words orderB)))))
       | _ => some ["bad-request".toList]
     else if cmd == "c06.bind".toList then
       -- c06.bind <name in the USE statement> <module names of the project> <names of extModules>
